@@ -241,6 +241,14 @@ func taskFieldLoad(c *chk.Ctx, v ssa.Value) (task ssa.Value, f *types.Var, ok bo
 		return nil, nil, false
 	}
 	v = c.P.Canon(v)
+	// (a pure getter of the task: t.getErr() reads t's field)
+	if call, isCall := v.(*ssa.Call); isCall {
+		if ld, isLoad := ir.GetterLoad(v).(*ssa.UnOp); isLoad && ssa.Value(ld) != v {
+			if fa, isFA := ld.X.(*ssa.FieldAddr); isFA && ir.FieldOwner(fa) == c.M.Task && len(call.Call.Args) == 1 {
+				return c.P.Canon(call.Call.Args[0]), ir.FieldVar(fa), true
+			}
+		}
+	}
 	u, isU := v.(*ssa.UnOp)
 	if !isU || u.Op != token.MUL {
 		return nil, nil, false
@@ -877,7 +885,7 @@ func describeSkipCond(c *chk.Ctx, cd ir.Cond) string {
 	}
 	if bo, ok := cd.V.(*ssa.BinOp); ok && (bo.Op == token.NEQ || bo.Op == token.EQL) {
 		if k, isC := ir.ConstInt(bo.Y); isC {
-			if call, isCall := bo.X.(*ssa.Call); isCall && call.Call.StaticCallee() != nil && call.Call.StaticCallee().Name() == "ErrorCode" {
+			if call, isCall := bo.X.(*ssa.Call); isCall && call.Call.StaticCallee() != nil && ir.BaseName(call.Call.StaticCallee()) == "ErrorCode" {
 				neq := (bo.Op == token.NEQ) == cd.Truth
 				if neq {
 					return fmt.Sprintf("code!=%d", k)
@@ -1651,6 +1659,30 @@ func ruleBarrier(c *chk.Ctx, d *dispatchModel) {
 		if mine.dn.Parent() != f {
 			conds = c.P.CondsWithin(mine.dn, f)
 		}
+		before := map[ir.Cond]bool{}
+		for _, cd := range ir.CondsAt(s.Block()) {
+			before[cd] = true
+		}
+		extra := ""
+		for _, cd := range conds {
+			if before[cd] {
+				continue
+			}
+			isVerdict := false
+			{
+				cv := cd.V
+				if _, isCall := cv.(*ssa.Call); !isCall {
+					cv = c.P.Canon(ir.NormCell(cv))
+				}
+				if call, ok := cv.(*ssa.Call); ok && call.Call.StaticCallee() != nil && isRequestNotificationPred(c, call.Call.StaticCallee()) {
+					isVerdict = true
+				}
+			}
+			if !isVerdict && extra == "" {
+				extra = cd.V.String() + " at " + c.P.Pos(cd.V.Pos())
+			}
+		}
+		c.Check(extra == "", "PAIR.barrier", f, "Done subject to nothing but the notification test", mine.at.Pos(), "between the handler's return and Done there is no test other than whether the request is a notification", "after the handler returns, Done is also subject to another test ("+extra+"): on its other outcome (e.g. an error from the invocation) a notification's unit of the barrier is never given back, and every later request waits forever")
 		for _, cd := range conds {
 			// (the verdict may have been taken before the call and handed to the goroutine as a
 			// parameter: whether a request is a notification never changes)
@@ -1759,6 +1791,73 @@ func ruleSingleDispatcher(c *chk.Ctx, d *dispatchModel) {
 			}
 		}
 		c.Check(after, "WHO.queue", s.Caller, "prepare follows dequeue", s.Instr.Pos(), "the prepare function is called right where the batch is dequeued", "the prepare function is called elsewhere than after the dequeue")
+		// and every batch taken off the queue is prepared: no return between the dequeue and the call
+		if after {
+			var from []ssa.Instruction
+			if s.Caller == pf {
+				from = []ssa.Instruction{pops[0]}
+			} else {
+				from = anchorsIn(c, pops[0], s.Caller)
+			}
+			dropped := ""
+			for _, a := range from {
+				isPrep := func(i ssa.Instruction) bool {
+					ci, ok := i.(ssa.CallInstruction)
+					return ok && ci.Common().StaticCallee() == d.prepare
+				}
+				// when the dequeue sits in a helper that reports with a flag whether it took a batch,
+				// only the flag's value on the helper's returns after the dequeue matters
+				init := map[ssa.Value]bool{}
+				if call, isCall := a.(*ssa.Call); isCall && a != ssa.Instruction(pops[0]) {
+					if h := call.Call.StaticCallee(); h != nil {
+						for j := 0; j < h.Signature.Results().Len(); j++ {
+							if h.Signature.Results().At(j).Type().String() != "bool" {
+								continue
+							}
+							var val *bool
+							same := true
+							for _, r := range ir.Returns(h) {
+								reach := false
+								for _, pa := range anchorsIn(c, pops[0], h) {
+									if pa.Block() == r.Block() || blockReachesFrom(pa.Block(), r.Block()) {
+										reach = true
+									}
+								}
+								if !reach {
+									continue
+								}
+								k, isK := ir.ReturnResult(r, j).(*ssa.Const)
+								if !isK || k.Value == nil {
+									same = false
+									continue
+								}
+								t := k.Value.String() == "true"
+								if val != nil && *val != t {
+									same = false
+								}
+								val = &t
+							}
+							if val == nil || !same {
+								continue
+							}
+							if h.Signature.Results().Len() == 1 {
+								init[call] = *val
+							} else {
+								for _, ref := range *call.Referrers() {
+									if e, isE := ref.(*ssa.Extract); isE && e.Index == j {
+										init[e] = *val
+									}
+								}
+							}
+						}
+					}
+				}
+				if hit, at := reachesKnowing(nil, a.Block(), a, func(i ssa.Instruction) bool { _, isRet := i.(*ssa.Return); return isRet }, isPrep, init); hit && dropped == "" {
+					dropped = c.P.Pos(at.Pos())
+				}
+			}
+			c.Check(dropped == "", "WHO.queue", s.Caller, "every dequeued batch is prepared", s.Instr.Pos(), "no return between the dequeue and the prepare call", "a batch taken off the queue can be dropped without being prepared (return at "+dropped+"): the notifications kept in the queue when the server stops would be drained but never handed to their handlers")
+		}
 	}
 	// D4: the batch runner executes in a goroutine of its own, tracked by the lifetime group: the
 	// nearest go statement above every call of the runner is tracked, and is not the dispatcher's
@@ -1918,11 +2017,9 @@ func ruleHandlerFromAssigner(c *chk.Ctx, d *dispatchModel) {
 				})
 			}
 			okM := false
-			if u, ok := ir.NormCell(call.Call.Args[2]).(*ssa.UnOp); ok {
-				if fa2, ok := u.X.(*ssa.FieldAddr); ok && ir.FieldVar(fa2) == c.M.QMethod {
-					if t2, f2, ok2 := taskFieldLoad(c, fa2.X); ok2 && f2 == c.M.THreq && t2 == task {
-						okM = true
-					}
+			if b2, fv2, ok := ir.FieldRead(ir.NormCell(call.Call.Args[2])); ok && fv2 == c.M.QMethod {
+				if t2, f2, ok2 := taskFieldLoad(c, b2); ok2 && f2 == c.M.THreq && t2 == task {
+					okM = true
 				}
 			}
 			good = ok1 && f1 == c.M.TCtx && t1 == task && okM
